@@ -2,6 +2,7 @@ package main
 
 import (
 	"fmt"
+	"os"
 	"go/constant"
 	"go/token"
 	"go/types"
@@ -1326,6 +1327,9 @@ type loopFrame struct {
 func (x *Exec) havocLoop(st *State, fr *Frame, hdr *ssa.BasicBlock) {
 	ms := x.prog.modSetOfBlocks(fr.fn, fr.loops.body[hdr], x)
 	lc := x.loopContractFor(fr, fr.loops.ordinal[hdr])
+	if os.Getenv("GVC_DEBUG") != "" {
+		fmt.Fprintf(os.Stderr, "havocLoop %s L%d all=%v heap=%v\n", fr.fn.Name(), fr.loops.ordinal[hdr], ms.all, ms.heap)
+	}
 	if ms.all {
 		st.havocAllHeap("loop body calls code without a frame")
 	} else {
